@@ -95,17 +95,20 @@ Fixpoint agg_loop (l : list src) (q : list nat) (cnt : nat) (exp : option Z) : o
     end
   end.
 
-(* charge every source in order with the first argument, l.101-109 *)
-Fixpoint charge_all (l : list src) (i : nat) (a : Z) (done_l : list src) (q : list nat) (ev : list sevent) (err : bool)
+Definition tag_ev (i : nat) (l : list event) : list sevent := map (fun x => (i, x)) l.
+
+(* charge every source in order with the first argument, l.101-109 (n = sources still to charge, i = next index) *)
+Fixpoint charge_from (n i : nat) (a : Z) (l : list src) (q : list nat) (ev : list sevent) (err : bool)
   : list src * list nat * list sevent * bool :=
-  match l with
-  | [] => (rev done_l, q, ev, err)
-  | s :: t =>
-      match charge s a with
-      | Some (s1, b, e) => charge_all t (S i) a (s1 :: done_l) (if b then q ++ [i] else q) (ev ++ map (fun x => (i, x)) e) err
-      | None => charge_all t (S i) a (s :: done_l) q ev true
+  match n with
+  | O => (l, q, ev, err)
+  | S n' =>
+      match charge (get_src l i) a with
+      | Some (s1, b, e) => charge_from n' (S i) a (set_src l i s1) (if b then q ++ [i] else q) (ev ++ tag_ev i e) err
+      | None => charge_from n' (S i) a l q ev true
       end
   end.
+Definition charge_all (l : list src) (a : Z) := charge_from (length l) 0 a l [] [] false.
 
 (* the aggregate coroutine reached `o`: what its consumer sees and where it parks *)
 Definition apply_outcome (g : agg) (l : list src) (r : outcome * list nat * nat * option Z) (y : Z) : agg * res :=
@@ -116,8 +119,6 @@ Definition apply_outcome (g : agg) (l : list src) (r : outcome * list nat * nat 
   | OThrow e => (mkAgg l q c x AFinal None (Some e) (adone g) None (aerr g), RExc e)
   | ORet => (mkAgg l q c x AFinal None (aexn g) true None (aerr g), REndF)
   end.
-
-Definition tag_ev (i : nat) (l : list event) : list sevent := map (fun x => (i, x)) l.
 
 (* frames of the sources are destroyed in vector order; each destroys its live locals youngest first *)
 Fixpoint destroy_srcs (l : list src) (i : nat) : list sevent :=
@@ -186,7 +187,7 @@ Definition step (ha : bool) (g : agg) (x : op) : agg * obs :=
       if idle g && style_ok ha y then
         match ast g with
         | AInit =>
-            let '(l, q, ev, e) := charge_all (srcs g) 0 a [] [] [] false in
+            let '(l, q, ev, e) := charge_all (srcs g) a in
             let g0 := mkAgg l q (count g) (aexp g) (ast g) (aret g) (aexn g) (adone g) (aout g) (aerr g || e) in
             let '(g1, r) := apply_outcome g0 l (agg_loop l q (count g) (aexp g)) y in
             (g1, mkObs 0 r false (done_flag g1) ev)
